@@ -1,5 +1,6 @@
 /- The round trip `FromCtyValue(ToCtyValue(g, bridge type))`, by induction on the Go value. -/
 import CtyModel.Lemmas.GoctyStruct
+import CtyModel.Lemmas.d18Cval
 namespace CtyModel
 namespace Gocty
 open Ty
@@ -99,87 +100,130 @@ theorem rt (norm : String → String) : ∀ (g : GoVal) (T : GoTy) (ty : Ty), ha
     cases T <;> simp only [hasTy, Bool.false_eq_true] at hT
     rename_i E
     obtain ⟨ety, hbe, rfl⟩ := impliedG_slice_inv hb
-    simp only [rtSide, Bool.and_eq_true, Bool.not_eq_true'] at hs
-    obtain ⟨ws, hl, h5, h6, h7⟩ := rtL norm vs E ety hT hs.2 hbe hs.1
-    by_cases hvs : vs = []
-    · subst hvs
-      refine ⟨⟨.list ety, .seq []⟩, by simp [toCtyG], ?_, fun _ => rfl, matches_refl _⟩
-      intro S
-      unfold fromCtyP
-      simp [GoTy.base, GoTy.isCval, GoTy.depth, wrapPtr, fromCtyL, seqAll, mapRes]
-    · have hwf := impliedG_wf norm true E ety hbe
-      have heq : Ty.equals ety ety = true := (Ty.equals_iff_eq ety ety hwf hwf).mpr rfl
-      have hnd := impliedG_notDyn norm true E ety hbe hs.1
-      have hwne : ws ≠ [] := by
-        intro e; subst e
-        cases vs with
-        | nil => exact hvs rfl
-        | cons _ _ => simp at hl
-      refine ⟨⟨.list ety, .seq (payloads ws)⟩, ?_, ?_, fun _ => rfl, matches_refl _⟩
-      · simp only [toCtyG, isEmpty_false_of_ne hvs, Bool.false_eq_true, if_false, h5, seqAll_map_ok, listVal,
-          isEmpty_false_of_ne hwne, canListVal, elemTypeOf_dyn ety hnd heq ws hwne h7, Bool.not_true, Bool.false_eq_true]
-      · intro S
+    simp only [rtSide, Bool.and_eq_true, Bool.or_eq_true, Bool.not_eq_true'] at hs
+    rcases hs with ⟨hcv | hu, hsL⟩
+    · have hs : hasCval E = false ∧ rtSideL norm vs E = true := ⟨hcv, hsL⟩
+      obtain ⟨ws, hl, h5, h6, h7⟩ := rtL norm vs E ety hT hs.2 hbe hs.1
+      by_cases hvs : vs = []
+      · subst hvs
+        refine ⟨⟨.list ety, .seq []⟩, by simp [toCtyG], ?_, fun _ => rfl, matches_refl _⟩
+        intro S
         unfold fromCtyP
-        simp [GoTy.base, GoTy.isCval, GoTy.depth, wrapPtr, h6 S, seqAll_map_ok, mapRes]
+        simp [GoTy.base, GoTy.isCval, GoTy.depth, wrapPtr, fromCtyL, seqAll, mapRes]
+      · have hwf := impliedG_wf norm true E ety hbe
+        have heq : Ty.equals ety ety = true := (Ty.equals_iff_eq ety ety hwf hwf).mpr rfl
+        have hnd := impliedG_notDyn norm true E ety hbe hs.1
+        have hwne : ws ≠ [] := by
+          intro e; subst e
+          cases vs with
+          | nil => exact hvs rfl
+          | cons _ _ => simp at hl
+        refine ⟨⟨.list ety, .seq (payloads ws)⟩, ?_, ?_, fun _ => rfl, matches_refl _⟩
+        · simp only [toCtyG, isEmpty_false_of_ne hvs, Bool.false_eq_true, if_false, h5, seqAll_map_ok, listVal,
+            isEmpty_false_of_ne hwne, canListVal, elemTypeOf_dyn ety hnd heq ws hwne h7, Bool.not_true, Bool.false_eq_true]
+        · intro S
+          unfold fromCtyP
+          simp [GoTy.base, GoTy.isCval, GoTy.depth, wrapPtr, h6 S, seqAll_map_ok, mapRes]
+    · -- d18: the element type is `cty.Value` itself, the members all of one type
+      obtain ⟨rfl, hvs | ⟨ws, t, rfl, hne, hty, hd, heq⟩⟩ := uniformCv_inv hu
+      · subst hvs
+        simp only [impliedG] at hbe; cases hbe
+        refine ⟨⟨.list .dyn, .seq []⟩, by simp [toCtyG], ?_, fun h => by simp [hasCval] at h, matches_refl _⟩
+        intro S
+        unfold fromCtyP
+        simp [GoTy.base, GoTy.isCval, GoTy.depth, wrapPtr, fromCtyL, seqAll, mapRes]
+      · simp only [impliedG] at hbe; cases hbe
+        obtain ⟨h1, h2⟩ := rt_cval_slice norm ws t hne hty hd heq
+        exact ⟨⟨.list t, .seq (payloads ws)⟩, h1, h2, fun h => by simp [hasCval] at h, by simp [«matches»]⟩
   | .arr vs, T, ty, hT, hs, hb => by
     cases T <;> simp only [hasTy, Bool.false_eq_true] at hT
     rename_i n E
     simp only [Bool.and_eq_true, beq_iff_eq] at hT
     obtain ⟨ety, hbe, rfl⟩ := impliedG_array_inv hb
-    simp only [rtSide, Bool.and_eq_true, Bool.not_eq_true'] at hs
-    obtain ⟨ws, hl, h5, h6, h7⟩ := rtL norm vs E ety hT.2 hs.2 hbe hs.1
-    have hpl : (payloads ws).length = n := by rw [payloads_length, hl, hT.1]
-    by_cases hvs : vs = []
-    · subst hvs
-      have hn : n = 0 := by simpa using hT.1.symm
-      subst hn
-      refine ⟨⟨.list ety, .seq []⟩, by simp [toCtyG], ?_, fun _ => rfl, matches_refl _⟩
-      intro S
-      unfold fromCtyP
-      simp [GoTy.base, GoTy.isCval, GoTy.depth, wrapPtr, fromCtyL, seqAll, mapRes]
-    · have hwf := impliedG_wf norm true E ety hbe
-      have heq : Ty.equals ety ety = true := (Ty.equals_iff_eq ety ety hwf hwf).mpr rfl
-      have hnd := impliedG_notDyn norm true E ety hbe hs.1
-      have hwne : ws ≠ [] := by
-        intro e; subst e
-        cases vs with
-        | nil => exact hvs rfl
-        | cons _ _ => simp at hl
-      refine ⟨⟨.list ety, .seq (payloads ws)⟩, ?_, ?_, fun _ => rfl, matches_refl _⟩
-      · simp only [toCtyG, isEmpty_false_of_ne hvs, Bool.false_eq_true, if_false, h5, seqAll_map_ok, listVal,
-          isEmpty_false_of_ne hwne, canListVal, elemTypeOf_dyn ety hnd heq ws hwne h7, Bool.not_true, Bool.false_eq_true]
-      · intro S
+    simp only [rtSide, Bool.and_eq_true, Bool.or_eq_true, Bool.not_eq_true'] at hs
+    rcases hs with ⟨hcv | hu, hsL⟩
+    · have hs : hasCval E = false ∧ rtSideL norm vs E = true := ⟨hcv, hsL⟩
+      obtain ⟨ws, hl, h5, h6, h7⟩ := rtL norm vs E ety hT.2 hs.2 hbe hs.1
+      have hpl : (payloads ws).length = n := by rw [payloads_length, hl, hT.1]
+      by_cases hvs : vs = []
+      · subst hvs
+        have hn : n = 0 := by simpa using hT.1.symm
+        subst hn
+        refine ⟨⟨.list ety, .seq []⟩, by simp [toCtyG], ?_, fun _ => rfl, matches_refl _⟩
+        intro S
         unfold fromCtyP
-        simp [GoTy.base, GoTy.isCval, GoTy.depth, wrapPtr, h6 S, seqAll_map_ok, mapRes, hpl]
+        simp [GoTy.base, GoTy.isCval, GoTy.depth, wrapPtr, fromCtyL, seqAll, mapRes]
+      · have hwf := impliedG_wf norm true E ety hbe
+        have heq : Ty.equals ety ety = true := (Ty.equals_iff_eq ety ety hwf hwf).mpr rfl
+        have hnd := impliedG_notDyn norm true E ety hbe hs.1
+        have hwne : ws ≠ [] := by
+          intro e; subst e
+          cases vs with
+          | nil => exact hvs rfl
+          | cons _ _ => simp at hl
+        refine ⟨⟨.list ety, .seq (payloads ws)⟩, ?_, ?_, fun _ => rfl, matches_refl _⟩
+        · simp only [toCtyG, isEmpty_false_of_ne hvs, Bool.false_eq_true, if_false, h5, seqAll_map_ok, listVal,
+            isEmpty_false_of_ne hwne, canListVal, elemTypeOf_dyn ety hnd heq ws hwne h7, Bool.not_true, Bool.false_eq_true]
+        · intro S
+          unfold fromCtyP
+          simp [GoTy.base, GoTy.isCval, GoTy.depth, wrapPtr, h6 S, seqAll_map_ok, mapRes, hpl]
+    · obtain ⟨rfl, hvs | ⟨ws, t, rfl, hne, hty, hd, heq⟩⟩ := uniformCv_inv hu
+      · subst hvs
+        have hn : n = 0 := by simpa using hT.1.symm
+        subst hn
+        simp only [impliedG] at hbe; cases hbe
+        refine ⟨⟨.list .dyn, .seq []⟩, by simp [toCtyG], ?_, fun h => by simp [hasCval] at h, matches_refl _⟩
+        intro S
+        unfold fromCtyP
+        simp [GoTy.base, GoTy.isCval, GoTy.depth, wrapPtr, fromCtyL, seqAll, mapRes]
+      · simp only [impliedG] at hbe; cases hbe
+        have hn : n = ws.length := by simpa using hT.1.symm
+        subst hn
+        obtain ⟨h1, h2⟩ := rt_cval_array norm ws t hne hty hd heq
+        exact ⟨⟨.list t, .seq (payloads ws)⟩, h1, h2, fun h => by simp [hasCval] at h, by simp [«matches»]⟩
   | .map ks vs, T, ty, hT, hs, hb => by
     cases T <;> simp only [hasTy, Bool.false_eq_true] at hT
     rename_i E
     simp only [Bool.and_eq_true, beq_iff_eq] at hT
     obtain ⟨ety, hbe, rfl⟩ := impliedG_map_inv hb
-    simp only [rtSide, Bool.and_eq_true, Bool.not_eq_true', beq_iff_eq] at hs
-    obtain ⟨ws, hl, h5, h6, h7⟩ := rtL norm vs E ety hT.2 hs.2 hbe hs.1.2
-    by_cases hvs : vs = []
-    · subst hvs
-      have hks : ks = [] := by cases ks <;> simp_all
-      subst hks
-      refine ⟨⟨.map ety, .smap [] []⟩, by simp [toCtyG], ?_, fun _ => rfl, matches_refl _⟩
-      intro S
-      unfold fromCtyP
-      simp [GoTy.base, GoTy.isCval, GoTy.depth, wrapPtr, fromCtyL, seqAll, mapRes]
-    · have hwf := impliedG_wf norm true E ety hbe
-      have heq : Ty.equals ety ety = true := (Ty.equals_iff_eq ety ety hwf hwf).mpr rfl
-      have hnd := impliedG_notDyn norm true E ety hbe hs.1.2
-      have hwne : ws ≠ [] := by
-        intro e; subst e
-        cases vs with
-        | nil => exact hvs rfl
-        | cons _ _ => simp at hl
-      refine ⟨⟨.map ety, .smap ks (payloads ws)⟩, ?_, ?_, fun _ => rfl, matches_refl _⟩
-      · simp only [toCtyG, isEmpty_false_of_ne hvs, Bool.false_eq_true, if_false, h5, combAll_map_ok, mapVal,
-          isEmpty_false_of_ne hwne, canListVal, elemTypeOf_dyn ety hnd heq ws hwne h7, hs.1.1, bne_self_eq_false, Bool.not_true, Bool.false_eq_true]
-      · intro S
+    simp only [rtSide, Bool.and_eq_true, Bool.or_eq_true, Bool.not_eq_true', beq_iff_eq] at hs
+    rcases hs with ⟨⟨hk, hcv | hu⟩, hsL⟩
+    · have hs : (List.map norm ks = ks ∧ hasCval E = false) ∧ rtSideL norm vs E = true := ⟨⟨hk, hcv⟩, hsL⟩
+      obtain ⟨ws, hl, h5, h6, h7⟩ := rtL norm vs E ety hT.2 hs.2 hbe hs.1.2
+      by_cases hvs : vs = []
+      · subst hvs
+        have hks : ks = [] := by cases ks <;> simp_all
+        subst hks
+        refine ⟨⟨.map ety, .smap [] []⟩, by simp [toCtyG], ?_, fun _ => rfl, matches_refl _⟩
+        intro S
         unfold fromCtyP
-        simp [GoTy.base, GoTy.isCval, GoTy.depth, wrapPtr, h6 S, seqAll_map_ok, mapRes]
+        simp [GoTy.base, GoTy.isCval, GoTy.depth, wrapPtr, fromCtyL, seqAll, mapRes]
+      · have hwf := impliedG_wf norm true E ety hbe
+        have heq : Ty.equals ety ety = true := (Ty.equals_iff_eq ety ety hwf hwf).mpr rfl
+        have hnd := impliedG_notDyn norm true E ety hbe hs.1.2
+        have hwne : ws ≠ [] := by
+          intro e; subst e
+          cases vs with
+          | nil => exact hvs rfl
+          | cons _ _ => simp at hl
+        refine ⟨⟨.map ety, .smap ks (payloads ws)⟩, ?_, ?_, fun _ => rfl, matches_refl _⟩
+        · simp only [toCtyG, isEmpty_false_of_ne hvs, Bool.false_eq_true, if_false, h5, combAll_map_ok, mapVal,
+            isEmpty_false_of_ne hwne, canListVal, elemTypeOf_dyn ety hnd heq ws hwne h7, hs.1.1, bne_self_eq_false, Bool.not_true, Bool.false_eq_true]
+        · intro S
+          unfold fromCtyP
+          simp [GoTy.base, GoTy.isCval, GoTy.depth, wrapPtr, h6 S, seqAll_map_ok, mapRes]
+    · obtain ⟨rfl, hvs | ⟨ws, t, rfl, hne, hty, hd, heq⟩⟩ := uniformCv_inv hu
+      · subst hvs
+        have hks : ks = [] := by cases ks <;> simp_all
+        subst hks
+        simp only [impliedG] at hbe; cases hbe
+        refine ⟨⟨.map .dyn, .smap [] []⟩, by simp [toCtyG], ?_, fun h => by simp [hasCval] at h, matches_refl _⟩
+        intro S
+        unfold fromCtyP
+        simp [GoTy.base, GoTy.isCval, GoTy.depth, wrapPtr, fromCtyL, seqAll, mapRes]
+      · simp only [impliedG] at hbe; cases hbe
+        obtain ⟨h1, h2⟩ := rt_cval_map norm ks ws t hne hk hty hd heq
+        exact ⟨⟨.map t, .smap ks (payloads ws)⟩, h1, h2, fun h => by simp [hasCval] at h, by simp [«matches»]⟩
   | .nilPtr, T, ty, hT, hs, hb => by
     cases T <;> simp only [hasTy, Bool.false_eq_true] at hT
     rename_i E
